@@ -64,6 +64,21 @@ class RefMap:
                 out.append(pairs([(k, self.data[k]) for k in self.order]))
             elif t == "R":
                 out.append(pairs([(k, self.data[k]) for k in reversed(self.order)]))
+            elif t in ("X", "Y", "W"):
+                vis, stopped = [], False
+                for k in (reversed(self.order) if t == "Y" else self.order):
+                    vis.append((k, self.data[k]))
+                    if (self.data[k] if t == "W" else k) == op[1]:
+                        stopped = True
+                        break
+                out.append(("stop:" if stopped else "full:") + pairs(vis))
+            elif t in ("N", "V"):
+                hit = None
+                for k in self.order:
+                    if (k if t == "N" else self.data[k]) == op[1]:
+                        hit = k
+                        break
+                out.append("notfound" if hit is None else "found:" + C.hx(hit) + "=" + C.hx(self.data[hit]))
             else:
                 raise ValueError(op)
         return ";".join(out)
@@ -103,6 +118,37 @@ def property_statement(ops, observed):
                 k, v = kv.split("=")
                 if C.hx(last[C.unhx(k)]) != v:
                     return "lost update: listed value is not the last written"
+        elif t in ("X", "Y", "W"):
+            # the callback was called on each key at most once, on keys of the collection, with their last value;
+            # an error is returned exactly when an entry that makes the callback fail exists, and that entry is
+            # the last one visited; without an error every key was visited
+            body = o.split(":", 1)[1]
+            kvs = [kv.split("=") for kv in body[1:-1].split("|")] if body != "[]" else []
+            ks = [k for k, _ in kvs]
+            if len(set(ks)) != len(ks):
+                return "Each called its callback twice on one key"
+            for k, v in kvs:
+                if C.unhx(k) not in last or C.hx(last[C.unhx(k)]) != v:
+                    return "Each showed its callback an entry that is not the last written"
+            fails = [k for k in last if (last[k] if t == "W" else k) == op[1]]
+            if o.startswith("stop:") != bool(fails):
+                return "Each returned an error although no callback failed, or none although one did"
+            if fails:
+                k, v = kvs[-1]
+                if (v if t == "W" else k) != C.hx(op[1]):
+                    return "Each went on after its callback returned an error"
+                if any((vv if t == "W" else kk) == C.hx(op[1]) for kk, vv in kvs[:-1]):
+                    return "Each went on after its callback returned an error"
+            elif set(ks) != {C.hx(k) for k in last}:
+                return "Each without an error did not visit every key"
+        elif t in ("N", "V"):
+            cands = [k for k in last if (k if t == "N" else last[k]) == op[1]]
+            if (o == "notfound") != (not cands):
+                return "Find misses an entry that satisfies the predicate, or invents one"
+            if cands:
+                k, v = o.split(":", 1)[1].split("=")
+                if C.unhx(k) not in cands or C.hx(last[C.unhx(k)]) != v:
+                    return "Find returned an entry that does not satisfy the predicate"
         elif t == "G":
             exp = "some:" + C.hx(last[op[1]]) if op[1] in last else "none"
             if o != exp:
@@ -142,7 +188,9 @@ def random_seq(rng, maxlen):
     for i in range(n):
         k = rng.choice(keys)
         r = rng.random()
-        if r < 0.25:
+        if r < 0.05:
+            ops.append(("S", k, b"same"))
+        elif r < 0.25:
             ops.append(("S", k, b"v%d" % i))
         elif r < 0.35:
             ops.append(("T", k, b"t%d" % i))
@@ -158,13 +206,41 @@ def random_seq(rng, maxlen):
             ops.append(("H", k))
         elif r < 0.84:
             ops.append(("L",))
-        elif r < 0.89:
+        elif r < 0.87:
             ops.append(("E",))
-        elif r < 0.93:
+        elif r < 0.89:
             ops.append(("R",))
+        elif r < 0.915:
+            ops.append(("X", rng.choice(keys + [b"zz"])))
+        elif r < 0.935:
+            ops.append(("Y", rng.choice(keys + [b"zz"])))
+        elif r < 0.95:
+            ops.append(("W", rng.choice([b"v%d" % rng.randint(0, max(i, 1)), b"t%d" % rng.randint(0, max(i, 1)), b"v0+"])))
+        elif r < 0.965:
+            ops.append(("N", rng.choice(keys + [b"zz"])))
+        elif r < 0.975:
+            ops.append(("V", rng.choice([b"v%d" % rng.randint(0, max(i, 1)), b"same"])))
         else:
             ops.append(("M",))
     return ops + [("M",), ("L",)]
+
+
+def directed_each():
+    """every insertion order of three keys, each written by Set or SetToTop, with values that coincide in every
+    pattern; then Each / EachReverse failing at every key and at a missing one, at every value, Find by key and
+    by value, and a write after a stopped Each (the read lock must have been released)"""
+    keys = [b"a", b"b", b"c"]
+    for perm in itertools.permutations(keys):
+        for kinds in itertools.product("ST", repeat=3):
+            for vals in ([b"same", b"same", b"x"], [b"x", b"same", b"same"], [b"same", b"x", b"same"], [b"p", b"q", b"r"]):
+                ops = [(kd, k, v) for kd, k, v in zip(kinds, perm, vals)]
+                tail = []
+                for k in keys + [b"zz"]:
+                    tail += [("X", k), ("Y", k), ("N", k)]
+                for v in (b"same", b"x", b"q", b"none"):
+                    tail += [("W", v), ("V", v)]
+                tail += [("S", b"d", b"late"), ("X", b"d"), ("U", b"a", b"+"), ("W", b"same+"), ("M",), ("L",)]
+                yield ops + tail
 
 
 def set_scripts():
@@ -456,17 +532,19 @@ def run(res, tier, seed, replay):
     pr = C.prepare("C16", res, need_gens=("collections", "rules"))
     res.coverage["rule"] = ("operation sequences on the generated ordered collections: every sequence of "
                             "Set/SetToTop/Update/Get/Has over 3 keys and Len/MarshalJSON up to the length bound "
-                            "(exhaustive) plus random sequences (5 keys, also Map, failing Map, Each, EachReverse) up to "
-                            "length 40; non-trivial = at least two writes and one listing with >= 2 keys")
+                            "(exhaustive) plus random sequences (5 keys, also Map, failing Map, Each, EachReverse, Each / "
+                            "EachReverse whose callback fails at a key or at a value, Find by key and by value) up to "
+                            "length 40, plus every insertion order of three keys with coinciding values followed by every "
+                            "failing Each / Find; run on five instantiations (Servers, Tags, Directives, UserRules, Interactions); non-trivial = at least two writes and one listing with >= 2 keys")
     res.notes["decided_by"] = {
         "proof": ["ordered collections: invariant, no lost update, each key once in order/MarshalJSON, "
-                  "first-insertion order, Set keeps position (props/C16.v, all operation sequences)",
+                  "first-insertion order, Set keeps position, Each / EachReverse stop at the first failing callback having visited a prefix, Find = first match (props/C16.v, all operation sequences)",
                   "atomicity premise locks_ok / ops_ok on the lock facts regenerated from *_gen.go",
                   "rules builder (catalog/rules_builder.go, rules.go): index sound in every reachable state, Get = last "
                   "Set, data = one rule per call in call order, every key once when no key is Set twice, content "
                   "independent of the interleaving for disjoint per-goroutine key sets (all schedules / interleavings); "
                   "atomicity premise rules_locks_ok / rules_ops_ok on gen/RulesFacts.v regenerated from the two files"],
-        "correspondence": "model vs real catalog.Servers/Tags/directive.Directives, catalog.StringSet and "
+        "correspondence": "model vs real catalog.Servers/Tags/UserRules/Interactions/directive.Directives, catalog.StringSet and "
                           "catalog.RulesBuilder/Rules, sequential; final state of a concurrently written RulesBuilder vs "
                           "the model's interleaving-independent content",
         "runtime_exploration_only": ["absence of data races", "independence of concurrent parses",
@@ -487,6 +565,7 @@ def run(res, tier, seed, replay):
         seqs = list(exhaustive([b"a", b"b", b"c"], 4 if tier == "quick" else 5))
         nrand = 3000 if tier == "quick" else 30000
         seqs += [random_seq(rng, 40) for _ in range(nrand)]
+        seqs += list(directed_each())
     lines = ["omap " + enc(s) for s in seqs]
     t0 = time.time()
     impl = C.run_sharded("harness", "fn", lines) if lines else []
